@@ -148,6 +148,99 @@ fn key_bytes(k: u32) -> Vec<u8> {
 // ---------------------------------------------------------------------------------------------
 // mode lin (C14)
 
+/// C14, last clause ("the write stall mechanisms always let writers proceed eventually") next to a keyspace deletion:
+/// the worker threads are slowed down at their flush message, four memtables of keyspace "t" are sealed, a writer's
+/// insert is applied and then waits in the sealed-memtable back-pressure loop; another thread deletes "t". Once the
+/// workers get to the queued flush tasks the writer has to return. Verdict as in lin mode: a violation only if nothing
+/// moves at all (no worker thread runnable or using CPU, queues unchanged) for 30 s while the writer is still inside.
+fn stall_delete_case(seed: u64, idx: u64, stats: &mut Counts) -> Result<String, Deviation> {
+    let mut rng = Rng::new(mix(&[seed, idx, 0x5D]));
+    let workers = rng.range(1, 3) as usize;
+    let delay_ms = *rng.pick(&[150u64, 300, 600]);
+    let writers = rng.range(1, 3) as usize;
+    let desc = format!("stall-delete workers={workers} flush_message_delay_ms={delay_ms} stalled_writers={writers}");
+    let dir = fresh_dir("hist");
+    let res = (|| -> Result<(), Deviation> {
+        let db = Database::builder(&dir)
+            .worker_threads_unchecked(workers)
+            .open()
+            .map_err(|e| Deviation::new("unexpected-error:open", format!("{e:?}")))?;
+        let t = db
+            .keyspace("t", || KeyspaceCreateOptions::default().max_memtable_size(4_096))
+            .map_err(|e| Deviation::new("unexpected-error:keyspace", format!("{e:?}")))?;
+        hooks::set_named_delay(Some(("worker.msg.flush", delay_ms * 1_000)));
+        for i in 0..4u32 {
+            t.insert(format!("k{i}"), "v").map_err(|e| Deviation::new("unexpected-error:client-op", format!("{e:?}")))?;
+            t.rotate_memtable().map_err(|e| Deviation::new("unexpected-error:client-op", format!("rotate: {e:?}")))?;
+        }
+        let sealed_before = t.sealed_memtable_count();
+        let done = Arc::new(AtomicU64::new(0));
+        let mut hs = Vec::new();
+        for w in 0..writers {
+            let t = t.clone();
+            let done = done.clone();
+            hs.push(std::thread::spawn(move || {
+                let r = t.insert(format!("w{w}"), "w");
+                done.fetch_add(1, Ordering::SeqCst);
+                r
+            }));
+        }
+        std::thread::sleep(std::time::Duration::from_millis(40));
+        let waiting = writers - done.load(Ordering::SeqCst) as usize;
+        if sealed_before >= 4 && waiting > 0 {
+            stats.inc("stall.writer_waiting_at_delete");
+        }
+        db.delete_keyspace(t.clone())
+            .map_err(|e| Deviation::new("unexpected-error:delete_keyspace", format!("{e:?}")))?;
+        let t0 = std::time::Instant::now();
+        let mut last_change = std::time::Instant::now();
+        let mut last_sig = (0u64, 0usize, 0usize, 0usize);
+        let mut last_ticks = 0u64;
+        while done.load(Ordering::SeqCst) as usize != writers {
+            std::thread::sleep(std::time::Duration::from_millis(20));
+            let sig = (done.load(Ordering::SeqCst), db.verif_pending_work(), db.outstanding_flushes(), t.sealed_memtable_count());
+            let (ticks, active) = worker_activity();
+            if sig != last_sig || active || ticks != last_ticks {
+                last_sig = sig;
+                last_ticks = ticks;
+                last_change = std::time::Instant::now();
+            }
+            if last_change.elapsed().as_secs() >= 30 {
+                return Err(Deviation::new(
+                    "progress:write-stall-never-released",
+                    format!(
+                        "{} writer(s) whose insert waits in the sealed-memtable back-pressure of a keyspace that was deleted meanwhile have not returned; for 30 s nothing moved (worker queue length {}, {} flush tasks queued, {} sealed memtables, no worker runnable); threads: {}",
+                        writers - done.load(Ordering::SeqCst) as usize,
+                        sig.1,
+                        sig.2,
+                        sig.3,
+                        thread_states()
+                    ),
+                ));
+            }
+            if t0.elapsed().as_secs() > 150 {
+                return Err(Deviation::new("inconclusive:slow", "stalled writers did not return within 150 s (but progress was being made)"));
+            }
+        }
+        for h in hs {
+            match h.join() {
+                Ok(Ok(())) | Ok(Err(fjall::Error::KeyspaceDeleted)) => {}
+                Ok(Err(e)) => return Err(Deviation::new("unexpected-error:client-op", format!("stalled insert returned {e:?}"))),
+                Err(_) => return Err(Deviation::new("panic", crate::take_panic())),
+            }
+        }
+        stats.inc("stall.delete_cases");
+        hooks::set_named_delay(None);
+        drop(t);
+        timed_drop(db, "stall-delete")
+    })();
+    hooks::set_named_delay(None);
+    if res.is_ok() {
+        rm_rf(&dir);
+    }
+    res.map(|()| desc)
+}
+
 fn lin_case(seed: u64, idx: u64, thorough: bool, stats: &mut Counts) -> Result<String, Deviation> {
     let mut rng = Rng::new(mix(&[seed, idx, 0x14]));
     let threads = *rng.pick(&[2usize, 3, 4, 6, 8, 12, 16]);
@@ -1711,6 +1804,7 @@ pub fn main(args: &Args) -> i32 {
         hooks::reset_counts();
         let mut stats = Counts::default();
         let res = catch_unwind(AssertUnwindSafe(|| match mode.as_str() {
+            "lin" if idx % 12 == 7 => stall_delete_case(seed, idx, &mut stats),
             "lin" => lin_case(seed, idx, thorough, &mut stats),
             "batch" => batch_case(seed, idx, thorough, &mut stats),
             "views" => views_case(seed, idx, thorough, &mut stats),
